@@ -1,10 +1,80 @@
-import I2P.Mapping
+import I2P.Proofs.MappingLemmas
 /-! # C11 — Mapping: map → bytes → map is the identity and the encoding is canonical
-(property theorems; helper lemmas live in `I2P/Proofs/`) -/
+
+Property theorems only; helper lemmas live in `I2P/Proofs/MappingLemmas.lean`.  The model functions are
+the code-mirroring definitions of `I2P/Mapping.lean` (tied to `/repo` by the correspondence run of
+`./check C11`).  A Go `map[string]string` is represented by an association list in *some* iteration
+order with pairwise distinct keys. -/
 namespace I2P.Props.C11
 open I2P I2P.Mapping
 
-/-- The two-byte size field of `Mapping.Data()` equals the number of bytes that follow, whenever the
+/-- a Go `map[string]string` as an association list in SOME iteration order -/
+abbrev GoMap := List (Bytes × Bytes)
+
+/-- what makes an association list a map -/
+def DistinctKeys (m : GoMap) : Prop := (m.map (·.1)).Nodup
+
+/-- the documented limits: every string at most 255 bytes, and the serialised body
+    (`len k = v len ;` per pair, i.e. `|k| + |v| + 4` bytes) at most 65535 bytes -/
+def WithinLimits (m : GoMap) : Prop :=
+  (∀ p ∈ m, p.1.length ≤ 255 ∧ p.2.length ≤ 255) ∧ (m.map fun p => p.1.length + p.2.length + 4).sum ≤ 65535
+
+/-- T1. The result of `GoMapToMapping` does not depend on the iteration order of the Go map. -/
+theorem order_independent (m m' : GoMap) (hp : m'.Perm m) (hd : DistinctKeys m) :
+    goMapToMapping m' = goMapToMapping m := by
+  have hsum : (m'.map fun p => p.1.length + p.2.length + 4).sum = (m.map fun p => p.1.length + p.2.length + 4).sum :=
+    (hp.map _).sum_nat
+  by_cases hw : Short m ∧ (m.map fun p => p.1.length + p.2.length + 4).sum ≤ 65535
+  · have hs' : Short m' := (Short_perm hp).mpr hw.1
+    rw [goMapToMapping_some m hw.1 hw.2, goMapToMapping_some m' hs' (by rw [hsum]; exact hw.2)]
+    congr 1
+    have hd' : (m'.map (·.1)).Nodup := ((hp.map (fun p : Bytes × Bytes => p.1)).nodup_iff).mpr hd
+    exact sortPairs_perm_invariant _ _ (hp.map enc) (enc_inj_on m' hs' hd')
+  · rw [goMapToMapping_none m hw, goMapToMapping_none m']
+    intro hw'
+    exact hw ⟨(Short_perm hp).mp hw'.1, by rw [← hsum]; exact hw'.2⟩
+
+/-- T2. Every map within the limits is accepted, and the stored pairs decode to exactly the pairs of
+    the map, strictly sorted by key. -/
+theorem accepts_within_limits (m : GoMap) (hd : DistinctKeys m) (hw : WithinLimits m) :
+    ∃ ps, goMapToMapping m = some ps ∧
+      ∃ l, toGoMap ps = some l ∧ l.Perm m ∧ l.Pairwise (fun a b => bytesLt a.1 b.1 = true) :=
+  ⟨sortPairs (m.map enc), goMapToMapping_some m hw.1 hw.2,
+    (sortPairs (m.map enc)).map dec, toGoMap_ok _ (sorted_ok m hw.1), sorted_dec_perm m hw.1,
+    sorted_strict m hw.1 hd⟩
+
+/-- T3. A map beyond the limits is rejected: there is no value at all (never a truncated one). -/
+theorem rejects_beyond_limits (m : GoMap) (hw : ¬ WithinLimits m) : goMapToMapping m = none :=
+  goMapToMapping_none m hw
+
+/-- T4. map → bytes → map: the bytes written for an accepted map of at most 1000 pairs read back to
+    exactly the stored pairs, nothing left over, no error and no warning.
+
+    PARTIAL: the hypothesis `m.length ≤ 1000` cannot be dropped.  `GoMapToMapping`/`ValuesToMapping`
+    accept maps of more than `MAX_MAPPING_PAIRS = 1000` pairs (e.g. 1001 one-byte keys with empty
+    values: 1001 × 5 = 5005 bytes, far below 65535), but `ReadMapping` stops after 1000 pairs with the
+    `maxPairs` error — a recorded finding. -/
+theorem roundtrip_partial (m : GoMap) (ps : List Pair) (hd : DistinctKeys m) (hw : WithinLimits m)
+    (hn : m.length ≤ 1000) (hps : goMapToMapping m = some ps) :
+    readMapping (dataOf ps) = { hasSize := true, vals := some ps, rem := [], errs := [] } := by
+  obtain ⟨h1, h2, h3, h4⟩ := goMapToMapping_stored m ps hd hw.1 hw.2 hps
+  have := readMapping_dataOf ps [] h1 h2 (by rw [h3]; exact hn) h4
+  simpa using this
+
+/-- T4 (streaming). The same when the written bytes are followed by other data `x ≠ []`: the stored
+    pairs are returned, `x` is the remainder, and the only diagnostic is the trailing-data warning —
+    except for the empty map, whose size field is 0: then the Go code returns no warning at all.
+
+    PARTIAL for the same reason as `roundtrip_partial` (`m.length ≤ 1000`). -/
+theorem roundtrip_stream_partial (m : GoMap) (ps : List Pair) (hd : DistinctKeys m) (hw : WithinLimits m)
+    (hn : m.length ≤ 1000) (hps : goMapToMapping m = some ps) (x : Bytes) (hx : x ≠ []) :
+    readMapping (dataOf ps ++ x) =
+      { hasSize := true, vals := some ps, rem := x, errs := if ps = [] then [] else [.beyond] } := by
+  obtain ⟨h1, h2, h3, h4⟩ := goMapToMapping_stored m ps hd hw.1 hw.2 hps
+  have := readMapping_dataOf ps x h1 h2 (by rw [h3]; exact hn) h4
+  simpa [hx] using this
+
+/-- T5. The two-byte size field of `Mapping.Data()` equals the number of bytes that follow, whenever the
     payload fits 16 bits (which `ValuesToMapping` guarantees for everything it accepts). -/
 theorem size_field (ps : List Pair) (h : (serPairs ps).length < 65536) :
     (dataOf ps).take 2 = beEnc 2 (serPairs ps).length ∧ beVal ((dataOf ps).take 2) = (dataOf ps).length - 2 := by
@@ -15,5 +85,57 @@ theorem size_field (ps : List Pair) (h : (serPairs ps).length < 65536) :
   · rw [List.take_append_of_le_length (by omega), List.take_of_length_le (by omega)]
     rw [beVal_beEnc 2 _ (by simpa using h)]
     simp
+
+/-- T6 (the C01 instance). Whatever `ReadMapping` accepts re-serialises to exactly the bytes it
+    consumed: the input is `Data()` of the result followed by the returned remainder. -/
+theorem reserialise_accepted (w : Bytes) (h : accepted (readMapping w) = true) :
+    ∃ c, w = c ++ (readMapping w).rem ∧ data (readMapping w) = some c :=
+  accepted_reserialise w h
+
+/-- T7 (the C03 instance). Appending bytes to an accepted input changes neither the value nor the
+    verdict, and the appended bytes come back at the end of the remainder. -/
+theorem append_stable (w : Bytes) (h : accepted (readMapping w) = true) (x : Bytes) :
+    (readMapping (w ++ x)).vals = (readMapping w).vals ∧
+    (readMapping (w ++ x)).rem = (readMapping w).rem ++ x ∧
+    accepted (readMapping (w ++ x)) = true :=
+  accepted_append w h x
+
+/-- T8. No proper prefix of a completely consumed accepted input is accepted. -/
+theorem no_accepted_proper_prefix (w : Bytes) (h : accepted (readMapping w) = true)
+    (hr : (readMapping w).rem = []) (k : Nat) (hk : k < w.length) :
+    accepted (readMapping (w.take k)) = false :=
+  accepted_no_proper_prefix w h hr k hk
+
+/-! ### the hypotheses are satisfiable (concrete data) -/
+
+/-- `{"host": "1.2.3.4", "a": ""}` in an iteration order that is not the sorted one -/
+def exMap : GoMap := [([0x68, 0x6f, 0x73, 0x74], [0x31, 0x2e, 0x32, 0x2e, 0x33, 0x2e, 0x34]), ([0x61], [])]
+
+/-- the bytes `Mapping.Data()` produces for `exMap`: size 20, then `1"a"=0"";4"host"=7"1.2.3.4";` -/
+def exBytes : Bytes :=
+  [0, 20, 1, 0x61, 0x3d, 0, 0x3b, 4, 0x68, 0x6f, 0x73, 0x74, 0x3d, 7, 0x31, 0x2e, 0x32, 0x2e, 0x33, 0x2e, 0x34, 0x3b]
+
+example : DistinctKeys exMap ∧ WithinLimits exMap ∧ exMap.length ≤ 1000 := by
+  unfold DistinctKeys WithinLimits; decide
+
+/-- the stored value for `exMap`, computed through `order_independent` (the map is given unsorted) -/
+example : goMapToMapping exMap =
+    some [([1, 0x61], [0]), ([4, 0x68, 0x6f, 0x73, 0x74], [7, 0x31, 0x2e, 0x32, 0x2e, 0x33, 0x2e, 0x34])] := by
+  have hp : [exMap[1], exMap[0]].Perm exMap := by decide
+  rw [← order_independent exMap _ hp (by unfold DistinctKeys; decide),
+    goMapToMapping_some _ (by unfold Short; decide) (by decide)]
+  exact congrArg some (List.mergeSort_of_pairwise (by decide))
+
+/-- `exBytes` is what is written for the stored value, it is accepted and completely consumed
+    (the hypotheses of `reserialise_accepted`, `append_stable`, `no_accepted_proper_prefix`) -/
+example : dataOf [([1, 0x61], [0]), ([4, 0x68, 0x6f, 0x73, 0x74], [7, 0x31, 0x2e, 0x32, 0x2e, 0x33, 0x2e, 0x34])] = exBytes ∧
+    accepted (readMapping exBytes) = true ∧ (readMapping exBytes).rem = [] := by decide
+
+/-- a map beyond the limits (a 256-byte key): the hypothesis of `rejects_beyond_limits` -/
+example : ¬ WithinLimits [(List.replicate 256 0x61, [])] := by
+  intro h
+  have := (h.1 _ (List.mem_singleton.mpr rfl)).1
+  rw [List.length_replicate] at this
+  omega
 
 end I2P.Props.C11
